@@ -1,5 +1,6 @@
 """C01 - node resources are never oversubscribed by scheduling decisions."""
 import st_cluster
+import st_clustermodel
 
 LEVEL = "model_checking"
 PREFIXES = ["C01_"]
@@ -13,6 +14,7 @@ def run(ctx):
     ctx.assumptions += ["API store = client-go / KAI fake clientsets; one fresh SchedulerCache per cycle on a quiescent store",
                         "the environment (binder, kubelet) between cycles is played by the harness with the binder's labelling conventions",
                         "TLC evaluates C01_* after every decision of every recorded real cycle and at every cycle start"]
+    st_clustermodel.run_stage(ctx, PREFIXES, thorough=not ctx.quick)
     n = 240 if ctx.quick else 6000
     plan = [("mixed", n // 2), ("slots", n // 6), ("fraction", n // 6), ("full", n // 6)]
     st_cluster.run_stage(ctx, PREFIXES, plan)
